@@ -1,4 +1,6 @@
 import TucanProofs.Lemmas.Pipeline
+import TucanProofs.Lemmas.FilesPerm
+import TucanProofs.Lemmas.MoreExamples
 import TucanProofs.Lemmas.OracleNonempty
 import TucanProofs.Lemmas.ClassesTotal
 import TucanProofs.Examples
@@ -55,5 +57,30 @@ theorem C04_classes_set (order : Graph → List Nat)
 theorem C04_oracle_contract_inhabited : Nonempty CanonOracle := CanonOracle.nonempty
 
 example : exGraph.WF ∧ exGraph.Simple := ⟨exGraph_wf, exGraph_simple⟩
+
+/-- **C04 for graphs of molecules.**  `g`, `g'` are graphs of molecules `m`, `m'` (`IsGraphOf`: what either reader
+returns for a file stating the molecule); `m'` is `m` with its atoms listed in another order (`σ`, inverse `τ`), its
+bonds renumbered accordingly and listed in any order and orientation (`SameMolecule`).  Then canonicalizing both gives
+the same labelled graph: labels `0 … n-1`, label `i` with the same element, mass, radical and partition class in
+both, labels `i`, `j` bonded in one exactly when they are bonded in the other. -/
+theorem C04_graphs_of_same_molecule (O : CanonOracle) (σ τ : Nat → Nat) (m m' : Mol) (hm : m.Ok) (hm' : m'.Ok)
+    (same : SameMolecule σ τ m m') (cs cs' : List (Str × Str × Str))
+    (hc : cs.length = m.atoms.length) (hc' : cs'.length = m'.atoms.length)
+    (g g' : Graph) (hg : IsGraphOf g m cs) (hg' : IsGraphOf g' m' cs') (c c' r r' : Graph) (k k' : Nat)
+    (h : canonicalizeWith g O.order = .ok (c, r, k)) (h' : canonicalizeWith g' O.order = .ok (c', r', k')) :
+    (∀ i < m.atoms.length, ∃ x y, c.attrs? i = some x ∧ c'.attrs? i = some y ∧
+        x.z = y.z ∧ x.sym = y.sym ∧ x.mass = y.mass ∧ x.rad = y.rad ∧ x.part = y.part) ∧
+    (∀ i j, i < m.atoms.length → j < m.atoms.length → (c.Adj i j ↔ c'.Adj i j)) := by
+  obtain ⟨hchem, iso⟩ := isGraphOf_iso_perm σ τ m m' hm hm' same cs cs' hc hc' g g' hg hg'
+  have hn : g.numberOfNodes = m.atoms.length := by
+    have := congrArg List.length hg.labels
+    simpa [Graph.labels, Graph.numberOfNodes] using this
+  have := C04_nodes_and_edges O σ g g' c c' r r' k k' iso hchem hg.wf hg.simple hg'.wf hg'.simple h h'
+  rw [hn] at this
+  exact this
+
+/-- non-vacuity of the statement about graphs of molecules: `FilesExample.mol` and the same molecule listed in reverse order -/
+example : MoreExamples.molRev.Ok ∧ SameMolecule MoreExamples.rev MoreExamples.rev FilesExample.mol MoreExamples.molRev :=
+  ⟨MoreExamples.molRev_ok, MoreExamples.sameMolecule_rev⟩
 
 end Tucan
